@@ -81,7 +81,7 @@ static lp_id_t get_random_neighbor(lp_id_t from, struct topology *topology, size
 			break;
 	}
 
-	assert(ret != INVALID_DIRECTION);
+	// a region with no neighbor at all (e.g. a 1x1 grid) legitimately yields INVALID_DIRECTION
 	return ret;
 }
 
